@@ -395,7 +395,7 @@ impl<C: Config> Engine<C> {
         };
 
         let is_in_scc =
-            self.check_cyclic(&running_state, &query_caller.query_id());
+            self.check_cyclic(callee, &running_state, &query_caller.query_id());
 
         // mark the caller as being in scc
         if is_in_scc {
@@ -410,53 +410,100 @@ impl<C: Config> Engine<C> {
         Ok(false)
     }
 
-    /// Checks whether the stack of computing queries contains a cycle
-    #[allow(clippy::needless_pass_by_value)]
-    fn check_cyclic_internal(
-        &self,
-        computing: &QueryComputing,
-        target: &QueryID,
-    ) -> bool {
-        if computing.callee_info.callee_queries.contains_sync(target) {
-            computing
-                .is_in_scc
-                .store(true, std::sync::atomic::Ordering::SeqCst);
-
-            return true;
-        }
-
-        let mut found = false;
-
-        // OPTIMIZE: this can be parallelized
-        computing.callee_info.callee_queries.iter_sync(|k, _| {
-            let Some(state) =
-                self.computation_graph.computing.try_get_query_computing(k)
-            else {
-                return true;
-            };
-
-            found |= self.check_cyclic_internal(&state, target);
-
-            true
-        });
-
-        if found {
-            computing
-                .is_in_scc
-                .store(true, std::sync::atomic::Ordering::SeqCst);
-        }
-
-        found
-    }
-
-    /// Checks whether the stack of computing queries contains a cycle
-    #[allow(clippy::needless_pass_by_value)]
+    /// Checks whether waiting for `root` (which is currently computing) would
+    /// close a cycle back to `target`, i.e. whether `target` is reachable from
+    /// `root` through the registered callees of currently computing queries.
+    ///
+    /// Every computing query on such a path is marked as being in the SCC.
+    ///
+    /// The wait-for graph is explored with a visited set: it may itself
+    /// contain cycles that do not involve `target` (a query that reads itself,
+    /// or members of an already detected cycle that are still unwinding while
+    /// another task asks about them), which must not make the search loop.
     pub(super) fn check_cyclic(
         &self,
-        running_state: &QueryComputing,
+        root_id: &QueryID,
+        root: &Arc<QueryComputing>,
         target: &QueryID,
     ) -> bool {
-        self.check_cyclic_internal(running_state, target)
+        struct Visited {
+            state: Arc<QueryComputing>,
+            callees: Vec<QueryID>,
+            reaches_target: bool,
+        }
+
+        let mut visited: HashMap<QueryID, Visited, FxBuildHasher> =
+            HashMap::default();
+        let mut stack = vec![(*root_id, root.clone())];
+
+        while let Some((id, state)) = stack.pop() {
+            if visited.contains_key(&id) {
+                continue;
+            }
+
+            let mut callees = Vec::new();
+            let mut reaches_target = false;
+
+            state.callee_info.callee_queries.iter_sync(|k, _| {
+                if k == target {
+                    reaches_target = true;
+                }
+
+                callees.push(*k);
+
+                true
+            });
+
+            for callee in &callees {
+                if visited.contains_key(callee) {
+                    continue;
+                }
+
+                if let Some(callee_state) = self
+                    .computation_graph
+                    .computing
+                    .try_get_query_computing(callee)
+                {
+                    stack.push((*callee, callee_state));
+                }
+            }
+
+            visited.insert(id, Visited { state, callees, reaches_target });
+        }
+
+        // propagate "reaches the target" backwards until nothing changes
+        loop {
+            let newly_reaching = visited
+                .iter()
+                .filter(|(_, node)| {
+                    !node.reaches_target
+                        && node.callees.iter().any(|callee| {
+                            visited
+                                .get(callee)
+                                .is_some_and(|callee| callee.reaches_target)
+                        })
+                })
+                .map(|(id, _)| *id)
+                .collect::<Vec<_>>();
+
+            if newly_reaching.is_empty() {
+                break;
+            }
+
+            for id in newly_reaching {
+                visited.get_mut(&id).unwrap().reaches_target = true;
+            }
+        }
+
+        for node in visited.values() {
+            if node.reaches_target {
+                node.state
+                    .is_in_scc
+                    .store(true, std::sync::atomic::Ordering::SeqCst);
+            }
+        }
+
+        visited.get(root_id).is_some_and(|root| root.reaches_target)
     }
 
     pub(super) fn is_query_running_in_scc(
